@@ -824,16 +824,21 @@ Definition disclosed (os : list obs) : list Z := map o_id os.
 Definition issued_tokens (rnd : nat -> bytes) (s : state) : list (bytes * bytes) :=
   map (fun k => (render rnd (TA k), render rnd (TR k))) (seq 0 (length (grants s))).
 
+(* everything the server sends: the observation of each event (visible to whoever made the request) and,
+   for a successful login / refresh, the two token strings, which only that caller is shown *)
+Fixpoint run_out (rnd : nat -> bytes) (watch : list bytes) (s : state) (evs : list event)
+  : list (obs * list (bytes * bytes)) :=
+  match evs with
+  | [] => []
+  | e :: evs' =>
+      let '(s1, o) := step watch s e in
+      (o, skipn (length (grants s)) (issued_tokens rnd s1)) :: run_out rnd watch s1 evs'
+  end.
+Definition others_view (out : list (obs * list (bytes * bytes))) : list obs := map fst out.
+
 (* D24, before the repair: both tokens of an issue were a public function [h] (MD5 of the varint) of the
    next two values of the very counter the session ids are; [predict] is the attacker's computation *)
 Definition tokens_orig (h : Z -> bytes) (ctr_at_login : Z) : bytes * bytes := (h (ctr_at_login + 1), h (ctr_at_login + 2)).
 Definition predict (h : Z -> bytes) (disclosed_id : Z) (ids_between : Z) : bytes * bytes :=
   (h (disclosed_id + ids_between + 1), h (disclosed_id + ids_between + 2)).
 
-(* ------------------------------------------------------------------ *)
-(* well-formed histories (what the generator promises)                  *)
-Definition ev_wf (ev : event) : bool :=
-  match ev with
-  | ETick dt => 0 <=? dt
-  | _ => true
-  end.
